@@ -16,8 +16,10 @@ value does not fit a short int.  Every contract has the same shape:
 """
 from __future__ import annotations
 
+import atexit
 import hashlib
 import os
+import shutil
 import subprocess
 import tempfile
 import time
@@ -46,11 +48,12 @@ def compile_ir(opt="-O1"):
     cmd = ["clang", opt, "-S", "-emit-llvm", "-Wno-everything", f"-I{PYINC}", f"-I{REPO}/mypyc/lib-rt", src, "-o", out]
     p = subprocess.run(cmd, capture_output=True, text=True)
     if p.returncode != 0:
+        shutil.rmtree(d, ignore_errors=True)
         _cache[key] = (None, p.stderr[-800:], None)
         return _cache[key]
     text = open(out).read()
-    funcs = IR.parse_module_safe(text) if hasattr(IR, "parse_module_safe") else None
-    _cache[key] = (text, None, d)
+    shutil.rmtree(d, ignore_errors=True)
+    _cache[key] = (text, None, None)
     return _cache[key]
 
 
@@ -484,6 +487,7 @@ def build_so():
     if p.returncode != 0:
         raise RuntimeError(p.stderr[-400:])
     _so["so"] = so
+    atexit.register(shutil.rmtree, d, ignore_errors=True)
     return so
 
 
